@@ -30,7 +30,7 @@ func lemmaObligations(eng *Engine, prop string) []*Obligation {
 				ok = false
 				continue
 			}
-			t, err := env.evalBool(ul.E)
+			t, err := env.evalAssume(ul.E)
 			if err != nil {
 				ok = false
 				continue
